@@ -14,6 +14,7 @@ namespace sim {
 
 Global G;
 thread_local Thread* tl_me = nullptr;
+thread_local int tl_rt       = 0;
 static std::vector<Thread*> g_pool; // worker threads (never includes the main thread)
 static std::map<void*, uint64_t> g_len_estimate; // region fn -> steps of its last execution (for PCT)
 static std::map<void*, SimLock> g_locks;
@@ -69,7 +70,9 @@ void begin_run(const Config& cfg)
 }
 void end_run()
 {
-    G.running = false;
+    G.running      = false;
+    G.icv_nthreads = 1;
+    G.cfg.policy   = POL_RR;
     G.st.sim_time_ns = G.clock_ns - 1700000000ull * 1000000000ull;
 }
 const Config& config() { return G.cfg; }
@@ -188,6 +191,7 @@ static inline void budget(Team* tm)
 // t is runnable and currently holds the baton.
 void sched_point(Thread* t)
 {
+    RtGuard rtg;
     Team* tm = t->team;
     if (!tm || t->inline_depth > 0 || tm->n == 1)
         return;
@@ -225,6 +229,7 @@ static void block_and_switch(Team* tm, Thread* t, const char* where)
 /* ------------------------------------------------------------------ */
 static void thread_end(Thread* w)
 {
+    RtGuard rtg;
     Team* tm       = w->team;
     Thread* master = tm->th[0];
     w->state       = TS_DONE;
@@ -288,6 +293,7 @@ static inline void hist_team(int n)
 
 static void run_region(void (*fn)(void*), void* data, int req, bool exact, const WorkShare* pre_ws)
 {
+    RtGuard rtg;
     Thread* t = me();
     clock_advance(100);
     G.st.regions++;
@@ -325,7 +331,12 @@ static void run_region(void (*fn)(void*), void* data, int req, bool exact, const
             Thread::InlineWS w{pre_ws->next, pre_ws->end, pre_ws->incr, pre_ws->chunk, 1, 0};
             t->inline_ws.push_back(w);
         }
-        fn(data);
+        {
+            int saved = tl_rt;
+            tl_rt     = 0;
+            fn(data);
+            tl_rt = saved;
+        }
         t->inline_ws.resize(ws_mark);
         t->inline_depth--;
         return;
@@ -386,7 +397,12 @@ static void run_region(void (*fn)(void*), void* data, int req, bool exact, const
     Thread* first = pick_next(&tm, t);
     if (first != t)
         switch_to(&tm, t, first);
-    fn(data);
+    {
+        int saved = tl_rt;
+        tl_rt     = 0;
+        fn(data);
+        tl_rt = saved;
+    }
     // join
     if (tm.done < n - 1) {
         t->state = TS_JOIN;
@@ -407,6 +423,7 @@ static void run_region(void (*fn)(void*), void* data, int req, bool exact, const
 
 static void barrier_impl(Thread* t)
 {
+    RtGuard rtg;
     Team* tm = t->team;
     clock_advance(100);
     if (!tm || t->inline_depth > 0 || tm->n == 1)
@@ -429,6 +446,7 @@ static void barrier_impl(Thread* t)
 
 static void lock_acquire(SimLock& L)
 {
+    RtGuard rtg;
     Thread* t = me();
     Team* tm  = t->team;
     clock_advance(100);
@@ -451,6 +469,7 @@ static void lock_acquire(SimLock& L)
 }
 static void lock_release(SimLock& L)
 {
+    RtGuard rtg;
     Thread* t = me();
     Team* tm  = t->team;
     L.owner   = nullptr;
@@ -476,6 +495,7 @@ void monitor_drop_sync()
 }
 void atomic_sync(Thread* t, uintptr_t addr)
 {
+    RtGuard rtg;
     Team* tm = t->team;
     if (!tm || t->inline_depth > 0 || tm->n == 1)
         return;
@@ -551,6 +571,7 @@ static inline bool solo(Thread* t) { return !t->team || t->inline_depth > 0 || t
 
 static bool loop_start(int kind, long start, long end, long incr, long chunk, long* istart, long* iend)
 {
+    RtGuard rtg;
     Thread* t = me();
     clock_advance(100);
     if (solo(t)) {
@@ -570,6 +591,7 @@ static bool loop_start(int kind, long start, long end, long incr, long chunk, lo
 }
 static bool loop_next(long* istart, long* iend)
 {
+    RtGuard rtg;
     Thread* t = me();
     clock_advance(100);
     if (solo(t)) {
@@ -589,6 +611,7 @@ static bool loop_next(long* istart, long* iend)
 }
 static void loop_end(bool wait)
 {
+    RtGuard rtg;
     Thread* t = me();
     if (solo(t)) {
         if (!t->inline_ws.empty())
@@ -675,6 +698,7 @@ bool GOMP_loop_end_cancel(void)
 /* single / sections */
 bool GOMP_single_start(void)
 {
+    RtGuard rtg;
     Thread* t = me();
     clock_advance(100);
     if (solo(t))
@@ -689,6 +713,7 @@ bool GOMP_single_start(void)
 }
 void* GOMP_single_copy_start(void)
 {
+    RtGuard rtg;
     Thread* t = me();
     if (solo(t))
         return nullptr;
@@ -705,6 +730,7 @@ void* GOMP_single_copy_start(void)
 }
 void GOMP_single_copy_end(void* data)
 {
+    RtGuard rtg;
     Thread* t = me();
     if (solo(t))
         return;
@@ -714,6 +740,7 @@ void GOMP_single_copy_end(void* data)
 }
 unsigned GOMP_sections_start(unsigned count)
 {
+    RtGuard rtg;
     Thread* t = me();
     if (solo(t)) {
         Thread::InlineWS w{0, 0, 1, 1, 1, (int)count};
@@ -733,6 +760,7 @@ unsigned GOMP_sections_start(unsigned count)
 }
 unsigned GOMP_sections_next(void)
 {
+    RtGuard rtg;
     Thread* t = me();
     if (solo(t)) {
         if (t->inline_ws.empty())
